@@ -156,6 +156,7 @@ func minimise(s *Scenario, test func(*Scenario) bool, maxTests int, deadline tim
 		}
 		for _, f := range []func(r *ReaderScn){
 			func(r *ReaderScn) { r.ExtraCalls = 1 },
+			func(r *ReaderScn) { r.Scribble = "" },
 			func(r *ReaderScn) { r.Terminal = "separate" },
 			func(r *ReaderScn) { r.Fault.WithData = false },
 			func(r *ReaderScn) {
@@ -235,6 +236,7 @@ func minimise(s *Scenario, test func(*Scenario) bool, maxTests int, deadline tim
 			func(w *WalkScn) { w.PostNil = false },
 			func(w *WalkScn) { w.Tape = "" },
 			func(w *WalkScn) { w.Block = 0 },
+			func(w *WalkScn) { w.RootPath = nil },
 		} {
 			c := cur.clone()
 			f(get(c))
